@@ -332,6 +332,15 @@ def check(run: Run) -> None:
         if w is not None:
             run.finding("C01.d", "evaluate_impl:eval-after-reset", "a node evaluation is reachable after the cursor reset (second pass): " + fl.path_text(w),
                         loc=fl.cfg.describe(w[-1][0]))
+        # the cursor is (re)positioned at the first normal node only on a FRESH cycle: a resumed (paused) cycle continues from the held cursor
+        fresh = R.store_is(re.escape(CUR), r"first_normal_node")
+        R.require_nodes(run, fl, fresh, "cursor := first_normal_node")
+        w = fl.reach([fl.start], targets=fresh, after_source=False,
+                     edge_skip=lambda node, lab: node.kind == "cond" and node.label == "resuming" and lab == "F")
+        run.count(1, "C01.d.fresh-only")
+        if w is not None:
+            run.finding("C01.d", "evaluate_impl:cursor-rewound-on-resume", "a resumed cycle rewinds the cursor to the first node: nodes before the paused "
+                        "node would be evaluated twice in one cycle: " + fl.path_text(w), loc=fl.cfg.describe(w[-1][0]))
         for s in stores:
             v = cn(s.r)
             in_main = R._contains(main[0], s) and not isinstance(s, type(None))
@@ -413,6 +422,7 @@ VARIANTS = [
     {"id": "c-validate-dropped", "expect": "C01.c", "edits": [{"file": WIRING, "find": "      &escaped_outputs);\n  validate_same_cycle_pairs(build.index_of);", "replace": "      &escaped_outputs);"}]},
     {"id": "d-descending-scan", "expect": "C01.d", "edits": [{"file": GRAPH, "find": "  for (; state.evaluation_cursor < runtime.layout.node_count;\n       ++state.evaluation_cursor) {", "replace": "  for (; state.evaluation_cursor < runtime.layout.node_count;\n       state.evaluation_cursor += 2) {"}]},
     {"id": "d-reeval-after-reset", "expect": "C01", "edits": [{"file": GRAPH, "find": "  state.evaluation_cursor = 0; // completed: reset the cursor\n", "replace": "  state.evaluation_cursor = 0; // completed: reset the cursor\n  if (runtime.layout.node_count > 0 && graph_schedule(runtime, graph.data(), 0) == evaluation_time) {\n    NodeView node_view = graph_node_view(runtime, graph.data(), 0);\n    node_view.evaluate(evaluation_time);\n  }\n"}]},
+    {"id": "d-rewind-on-resume", "expect": "C01.d", "edits": [{"file": GRAPH, "find": "    state.evaluation_cursor = first_normal_node;\n  }\n\n  for (; state.evaluation_cursor", "replace": "  }\n  state.evaluation_cursor = first_normal_node;\n\n  for (; state.evaluation_cursor"}]},
     {"id": "d-wrong-node", "expect": "C01.d", "edits": [{"file": GRAPH, "find": "      NodeView node_view =\n          graph_node_view(runtime, graph.data(), state.evaluation_cursor);", "replace": "      NodeView node_view =\n          graph_node_view(runtime, graph.data(), state.evaluation_cursor + 1 < runtime.layout.node_count ? state.evaluation_cursor + 1 : state.evaluation_cursor);"}]},
     {"id": "f-push-any-order", "expect": "C01.f", "edits": [{"file": GRAPH, "find": "      if (seen_non_push_source) {\n        throw std::invalid_argument(\n            \"Push source nodes must occupy the graph node prefix\");\n      }\n", "replace": ""}]},
     {"id": "f-push-last", "expect": "C01.f", "edits": [{"file": WIRING, "find": "auto &next = !ready_push_sources.empty() ? ready_push_sources : ready;", "replace": "auto &next = !ready.empty() ? ready : ready_push_sources;"}]},
